@@ -269,6 +269,16 @@ def check_t3(chk, m, K):
                    p.ret_inst.loc, fn.name)
     fn, segs = fib.fn_segments(m, "handle_timerq")
     chk.note_fn(fn)
+    # a list primitive this rule has no model of, applied to a kernel queue: what it moves is not known here
+    KNOWN = ("list_insert", "list_insert_sorted", "list_push", "list_extract", "list_remove", "list_contains", "list_iterate",
+             "list_iterator_next", "list_iterator_remove", "list_iterator_insert", "list_empty", "list_peek")
+    for s_, p_ in segs:
+        for e_ in p_.events:
+            if e_.kind == "call" and isinstance(e_.callee, str) and e_.callee not in KNOWN and e_.args and \
+                    any(K.queue_arg(a_) in ("runq", "timerq") for a_ in e_.args):
+                chk.unknown("T3.expiry-predicate", "handle_timerq", "%s is applied to a kernel queue: a list primitive this rule has no model of "
+                            "(which fibres it moves is not decided)" % e_.callee, e_.inst.loc)
+                return
     n = 0
     for s, p in segs:
         # the head leaves the timer queue on this segment: through the iterator, or by extracting / removing it
